@@ -89,10 +89,14 @@ func (ch *ConnectionHandler) acceptStream() {
 		stream = streams.NewNamedConnection(streams.NewMuxStreamConnection(stream), stream.RemoteAddr().String())
 		log.Debugf("[Server] New logical connection accepted: %v", stream)
 
-		if err = ch.multiplexToUpstream(stream); err != nil {
-			log.WithError(err).Errorf("Error selecting multichannel stream: %v", err)
-			streams.TryClose(stream)
-		}
+		// Serve every logical connection on its own goroutine: the handler returns only when the connection
+		// ends, and the next stream must not have to wait for that.
+		go func(stream net.Conn) {
+			if err := ch.multiplexToUpstream(stream); err != nil {
+				log.WithError(err).Errorf("Error selecting multichannel stream: %v", err)
+				streams.TryClose(stream)
+			}
+		}(stream)
 	}
 }
 
